@@ -30,6 +30,11 @@ Fixpoint write_all (ws : list wev) (buf : bytes) : bytes * wres * list wev :=
     end
   end.
 
+(* the keep-alive reply of the BLOCKING connection on a write half that may fail: write_all(reply), then the packet is returned;
+   a failed write is returned instead of the packet.  (what reached the transport, Some outcome, remaining script);
+   WOk = the keep-alive is handed to the caller *)
+Definition reply_then_return (pong : bytes) (ws : list wev) : bytes * wres * list wev := write_all ws pong.
+
 (* transport events seen by inner.read *)
 Inductive rev :=
 | Data (bs : bytes)   (* inner.read returned Ok(len bs); Ok(0) is end of stream *)
